@@ -9,7 +9,14 @@ from itertools import count
 from types import CodeType, FunctionType
 
 from . import _verif
-from .utils import MISSING, NameDatabase, Unusable, UsageError, subtler_type
+from .utils import (
+    MISSING,
+    NameDatabase,
+    Unusable,
+    UsageError,
+    fresh_error,
+    subtler_type,
+)
 
 recurse = Unusable(
     "recurse() can only be used from inside an @ovld-registered function."
@@ -300,7 +307,7 @@ def generate_dependent_dispatch(tup, handlers, next_call, slf, name, err, nerr):
         body.append(f"elif {local('SUMMATION')} == 0:")
         body.append(f"    return {local('FALLTHROUGH')}({slf}{argcall})")
         body.append("else:")
-        body.append(f"    raise {ndb[err]}")
+        body.append(f"    raise {ndb[fresh_error]}({ndb[err]})")
 
     body_text = textwrap.indent("\n".join(body), "    ")
     code = f"def __DEPENDENT_DISPATCH__({slf}{argspec}):\n{body_text}"
@@ -310,7 +317,7 @@ def generate_dependent_dispatch(tup, handlers, next_call, slf, name, err, nerr):
         inject[local(f"HANDLER{i}")] = h
 
     def raise_error(*args, **kwargs):
-        raise nerr
+        raise fresh_error(nerr)
 
     inject[local("FALLTHROUGH")] = (
         next_call and next_call[0]
